@@ -131,10 +131,54 @@ def index_out_structure(s, indices):
         lambda l: jax.ShapeDtypeStruct(np.empty(l.shape, np.int8)[indices].shape, l.dtype), s)
 
 
+def mk_index_multi(rng, s):
+    """index tuples touching two axes (or one axis through an ellipsis): integers, partial slices, an integer
+    array next to a partial slice — duplicate-free unless the array repeats a value"""
+    shapes = {l.shape for l in leaves_of(s)}
+    if len(shapes) != 1:
+        return None
+    shape = shapes.pop()
+    if len(shape) < 2:
+        return None
+    n0, n1, nl = shape[0], shape[1], shape[-1]
+
+    def part(n):
+        a = rng.randint(0, n - 1)
+        return slice(a, rng.randint(a + 1, n))
+    form = rng.choice(['int-slice', 'slice-int', 'slice-slice', 'slice-ellipsis-int', 'ellipsis-slice', 'arr-slice',
+                       'int-int'])
+    uflag = None
+    if form == 'int-slice':
+        indices = (rng.randint(-n0, n0 - 1), part(n1))
+    elif form == 'slice-int':
+        indices = (part(n0), rng.randint(-n1, n1 - 1))
+    elif form == 'slice-slice':
+        indices = (part(n0), part(n1))
+    elif form == 'slice-ellipsis-int':
+        indices = (part(n0), Ellipsis, rng.randint(-nl, nl - 1))
+    elif form == 'ellipsis-slice':
+        indices = (Ellipsis, part(nl))
+    elif form == 'int-int':
+        indices = (rng.randint(-n0, n0 - 1), rng.randint(-n1, n1 - 1))
+    else:
+        vals = [rng.randint(-n0, n0 - 1) for _ in range(rng.randint(1, n0 + 1))]
+        norm = [v + n0 if v < 0 else v for v in vals]
+        if len(set(norm)) == len(norm) and rng.random() < 0.6:
+            uflag = True
+        indices = (np.asarray(vals, dtype=np.int32), part(n1))
+    out = index_out_structure(s, indices)
+    jind = tuple(jnp.asarray(e) if isinstance(e, np.ndarray) else e for e in indices)
+    return IndexOperator(jind, in_structure=s, out_structure=out, unique_indices=uflag)
+
+
 def mk_index(rng, s, force_unique=None, negative=True):
     n = common_first_dim(s)
     if n is None:
         return None
+    if force_unique is None and rng.random() < 0.2:
+        o = mk_index_multi(rng, s)
+        if o is not None:
+            return o
     k = rng.random()
     if k < 0.70:
         m = rng.randint(1, 2 * n)
@@ -178,8 +222,25 @@ def mk_moveaxis(rng, s):
     ranks = {len(l.shape) for l in leaves_of(s)}
     if min(ranks) < 2:
         return None
-    src, dst = rng.choice([(0, 1), (1, 0), (0, -1), (-1, 0), (-2, -1), ((0, 1), (1, 0))])
-    return MoveAxisOperator(src, dst, in_structure=s)
+    if rng.random() < 0.5:
+        src, dst = rng.choice([(0, 1), (1, 0), (0, -1), (-1, 0), (-2, -1), ((0, 1), (1, 0))])
+        return MoveAxisOperator(src, dst, in_structure=s)
+    # any legal specification: several axes at once, pairs left in place (which pin the axis while the others
+    # move around it), either sign — a negative axis is resolved leaf by leaf
+    r = min(ranks)
+    k = rng.randint(1, min(3, r))
+    src = rng.sample(range(r), k)
+    dst = rng.sample(range(r), k)
+    if k >= 2 and rng.random() < 0.5:
+        j = rng.randrange(k)
+        if src[j] not in dst or dst.index(src[j]) == j:
+            dst[j] = src[j]
+    if len(set(dst)) != len(dst):
+        dst = rng.sample(range(r), k)
+    if len(ranks) == 1:
+        src = [a - r if rng.random() < 0.3 else a for a in src]
+        dst = [a - r if rng.random() < 0.3 else a for a in dst]
+    return MoveAxisOperator(tuple(src), tuple(dst), in_structure=s)
 
 
 def mk_ravel(rng, s):
@@ -261,7 +322,12 @@ def mk_toeplitz(rng, s, spd=False):
         # strictly diagonally dominant with a positive diagonal: symmetric positive definite
         vals = [8.0] + [rng.choice([1.0, -1.0, 0.5, 2.0]) for _ in range(k - 1)]
     band = arr(vals, s.dtype)
-    return SymmetricBandToeplitzOperator(band, s, method='dense')
+    method = rng.choice(['dense', 'dense', 'direct', 'fft', 'overlap_save', 'overlap_save'])
+    if method == 'overlap_save' and rng.random() < 0.6:
+        # an explicit transform size: the smallest legal one (2K-1, odd), or a little above it (odd and even)
+        fft_size = max(1, 2 * k - 1) + rng.choice([0, 0, 1, 2, 3, 4, 6])
+        return SymmetricBandToeplitzOperator(band, s, method=method, fft_size=fft_size)
+    return SymmetricBandToeplitzOperator(band, s, method=method)
 
 
 def mk_broadcast_diag(rng, s):
@@ -393,7 +459,11 @@ def pat_pol_hwp(rng, s):
 
 
 def pat_index(rng, s):
-    p = mk_index(rng, s, force_unique=rng.random() < 0.4)
+    p = None
+    if rng.random() < 0.3:
+        p = mk_index_multi(rng, s)          # two indexed axes: P @ P.T is the identity whenever nothing repeats
+    if p is None:
+        p = mk_index(rng, s, force_unique=rng.random() < 0.4)
     if p is None:
         return None
     return [p, p.T, p] if rng.random() < 0.5 else [p, p.T]
